@@ -20,12 +20,16 @@ package writer
 import (
 	"bytes"
 	"fmt"
+	"math"
 
 	jp "github.com/buger/jsonparser"
 	. "github.com/siglens/siglens/pkg/segment/utils"
 	"github.com/siglens/siglens/pkg/utils"
 	log "github.com/sirupsen/logrus"
 )
+
+// A string value is stored as type byte, uint16 length, bytes, and the end index of such a record is a uint16 too
+const maxStringValueLen = math.MaxUint16 - 3
 
 func ParseRawJsonObject(currKey string, data []byte, tsKey *string,
 	jsParsingStackbuf []byte, ple *ParsedLogEvent) error {
@@ -61,10 +65,13 @@ func ParseRawJsonObject(currKey string, data []byte, tsKey *string,
 					return fmt.Errorf("parseRawJsonObject: failed to unescape currKey: %v, err: %v",
 						currKey, err)
 				}
-				parseSingleString(finalKey, tsKey, valUnescaped, ple)
-			} else {
-				parseSingleString(finalKey, tsKey, value, ple)
+				value = valUnescaped
 			}
+			if len(value) > maxStringValueLen {
+				return fmt.Errorf("parseRawJsonObject: the value of %v is %v bytes long, the maximum is %v",
+					finalKey, len(value), maxStringValueLen)
+			}
+			parseSingleString(finalKey, tsKey, value, ple)
 		case jp.Number:
 			numVal, err := jp.ParseInt(value)
 			if err != nil {
@@ -130,10 +137,14 @@ func parseNonJaegerRawJsonArray(currKey string, data []byte, tsKey *string,
 					finalErr = encErr
 					return
 				}
-				parseSingleString(finalKey, tsKey, valUnescaped, ple)
-			} else {
-				parseSingleString(finalKey, tsKey, value, ple)
+				value = valUnescaped
 			}
+			if len(value) > maxStringValueLen {
+				finalErr = fmt.Errorf("parseNonJaegerRawJsonArray: the value of %v is %v bytes long, the maximum is %v",
+					finalKey, len(value), maxStringValueLen)
+				return
+			}
+			parseSingleString(finalKey, tsKey, value, ple)
 		case jp.Number:
 			numVal, encErr := jp.ParseInt(value)
 			if encErr != nil {
